@@ -478,6 +478,12 @@ class IMMachine(FormatMachine):
                 raise
             raised = e
         after = dict(s.pool[iid].checksums)
+        # a call addressed to one image never touches what another image has recorded
+        for other, oimg in sorted(s.pool.items()):
+            if other != iid and oimg is not s.pool[iid] and isinstance(s.model["imgs"][other].get("checksums"), dict):
+                if dict(oimg.checksums) != s.model["imgs"][other]["checksums"]:
+                    raise Violation("C16", "C16.recorded_checksum_never_replaced", "checksums-of-another-image-changed",
+                                    {"diff": first_diff(s.model["imgs"][other]["checksums"], dict(oimg.checksums))})
         kind = "new" if ctype not in before else ("equal" if value == rec else ("empty" if not value else "conflict"))
         self.count("C16", ["add_checksum", kind, bool(rec), raised is not None])
         # never silently replaced
@@ -620,6 +626,81 @@ class IMMachine(FormatMachine):
         d["must_prop"] = "C09"
         d["must_key"] = "colliding-pair/v%s/%s%s" % (ver, where, "/same-path" if op.get("same_path") else "")
         return "injected:" + d["must"]
+
+    def op_im_load_onto(self, op):
+        """A stored document is loaded into the LIVE, non-empty manifest (load merges into what the object holds).  The
+        document (written by independent code) holds one image: a copy of an image the manifest already has - under a
+        variant of its own - with other checksums (collide: the pair would break the rule, the load must be refused and
+        the cells stay as they were) or with the same checksums (allowed: the manifest gains exactly that image)."""
+        s = self.slot(op)
+        if s is None or s.tainted or s.model.get("legacy_collision"):
+            return "noop"
+        m = s.model
+        vt = vtuple(m["version"]) if m["version"] else None
+        present = self._present(m)
+        if vt is None or vt < (1, 1) or not present or im_validity(m)[0] != VALID or collisions(cells_expected(m)):
+            return "noop"
+        src = m["imgs"][present[op.get("pick", 0) % len(present)]]
+        n = len([k for k in m["imgs"] if k.startswith("M")])
+        variant = "Merged%d" % n
+        arch = "x86_64"
+        if variant in m["cells"]:
+            return "noop"
+        img = copy.deepcopy(src)
+        img["path"] = "%s.m%d" % (img["path"], n)
+        collide = bool(op.get("collide"))
+        if collide:
+            img["checksums"] = dict((k, (v[:-1] + ("1" if v[-1:] != "1" else "2")) if isinstance(v, str) and v else v) for k, v in img["checksums"].items())
+            if img["checksums"] == src["checksums"]:
+                return "noop"
+        ver = op.get("version", "1.2")
+        doc = {"header": {"type": "productmd.images", "version": ver},
+               "payload": {"compose": dict((k, v) for k, v in norm_compose(m["compose"]).items() if k in ("id", "date", "type", "respin") or (k == "label" and v) or (k == "final" and v)),
+                           "images": {variant: {arch: [dict((f, img[f]) for f in IMG_FIELDS)]}}}}
+        path = "/sim/d/onto-%d.json" % n
+        self.fs.put(path, json.dumps(doc, indent=4, sort_keys=True))
+        before = observe_im(s.obj)
+        try:
+            s.obj.load(path)
+            raised = None
+        except Exception as e:
+            if isinstance(e, HarnessError):
+                raise
+            raised = e
+        after = observe_im(s.obj)
+        self.count("C09", ["load-onto", collide, ver, raised is not None, len(present) > 1])
+        # the compose section is the document's (the same facts, normalised by the file format) - or, after a refusal, may
+        # still be the old one
+        if after["compose"] == norm_compose(m["compose"]) or (raised is not None and after["compose"] == before["compose"]):
+            m["compose"] = dict(after["compose"])
+        else:
+            s.tainted = True
+        if collide:
+            CTX.fault("F3.colliding_pair_injected")
+            if raised is None:
+                raise Violation("C09", "C09.colliding_document_rejected", "colliding-document-merged-into-live-manifest/v%s" % ver,
+                                {"version": ver, "identity": list(identity(img))[:5]})
+            if not isinstance(raised, ValueError):
+                raise Violation("C09", "C09.refusal_is_valueerror", "exctype/load-onto/%s" % exc_class(raised), {"error": exc_class(raised)})
+            if after["cells"] != before["cells"]:
+                raise Violation("C09", "C09.refused_add_changes_nothing", "refused-load-changed-cells", {"diff": first_diff(before["cells"], after["cells"])})
+            CTX.probe("c09.colliding_document_onto_live_refused")
+            return "refused:" + exc_class(raised)
+        if raised is not None:
+            raise Violation("C09", "C09.valid_add_accepted", "valid-document-refused-by-live-manifest/%s" % exc_class(raised),
+                            {"error": exc_class(raised), "msg": str(raised)[:160]})
+        iid = "M%d" % n
+        m["imgs"][iid] = img
+        m["cells"].setdefault(variant, {}).setdefault(arch, []).append(iid)
+        m["version"] = CURRENT
+        live = list(s.obj.images.get(variant, {}).get(arch, ()))
+        if len(live) == 1:
+            s.pool[iid] = live[0]
+        d = first_diff(cells_expected(m), after["cells"])
+        if d:
+            raise Violation("C09", "C09.add_changes_only_addressed_cell", "load-onto-effect-differs/%s" % diff_key(d), {"diff": d})
+        self.check_unique(s, "after-load-onto")
+        return "merged"
 
     def op_im_downgrade(self, op):
         """F8: the stored manifest is rewritten the way format 1.0 / 1.1 would have held it (independent
